@@ -4,6 +4,7 @@ from __future__ import annotations
 
 import ast
 
+from hsa.fold import fold_in
 from hsa.core import AnalysisError, Repo, Report, body_walk, call_name, dotted, find_assign, kwarg, last_attr, src
 from hsa.flow import Flow, _loop_level
 from hsa.rules.c10 import r10_2_loop_logs_reported
@@ -235,6 +236,65 @@ def r15_5_symbolic_transaction(repo: Repo, rep: Report):
     rep.check("R15.5", ok, m, ap[0] if ap else cf, src(ap[0]) if ap else "post_ex.path.append(...)", "timestamps must only be constrained to be non-decreasing")
 
 
+def _eval_sig_pred(repo, e, sig: str):
+    """value of a pure predicate over the string `fun_sig` (or-chains, ==, in, startswith/endswith, regex search/match/
+    fullmatch with a literal pattern); anything else is an AnalysisError"""
+    import re as _re
+
+    def pat(x):
+        v = fold_in(repo, "__main__", x)
+        if not isinstance(v, str):
+            raise AnalysisError(f"reserved-function predicate: pattern {src(x)} is not a literal")
+        return v
+
+    def ev(x):
+        if isinstance(x, ast.BoolOp):
+            vals = [ev(v) for v in x.values]
+            return all(vals) if isinstance(x.op, ast.And) else any(vals)
+        if isinstance(x, ast.UnaryOp) and isinstance(x.op, ast.Not):
+            return not ev(x.operand)
+        if isinstance(x, ast.Name) and x.id == "fun_sig":
+            return sig
+        if isinstance(x, ast.Constant):
+            return x.value
+        if isinstance(x, (ast.Tuple, ast.List, ast.Set)):
+            return [ev(v) for v in x.elts]
+        if isinstance(x, ast.Compare) and len(x.ops) == 1:
+            a, b = ev(x.left), ev(x.comparators[0])
+            op = x.ops[0]
+            if isinstance(op, ast.Eq):
+                return a == b
+            if isinstance(op, ast.NotEq):
+                return a != b
+            if isinstance(op, ast.In):
+                return a in b
+            if isinstance(op, ast.NotIn):
+                return a not in b
+            if isinstance(op, (ast.Is, ast.IsNot)) and b is None:
+                return (a is None) == isinstance(op, ast.Is)
+        if isinstance(x, ast.Call) and isinstance(x.func, ast.Attribute):
+            f = x.func
+            if f.attr in ("startswith", "endswith") and len(x.args) == 1:
+                recv, arg = ev(f.value), ev(x.args[0])
+                arg = tuple(arg) if isinstance(arg, list) else arg
+                return getattr(recv, f.attr)(arg)
+            if f.attr in ("search", "match", "fullmatch"):
+                if isinstance(f.value, ast.Name) and f.value.id == "re" and len(x.args) == 2:
+                    return getattr(_re, f.attr)(pat(x.args[0]), ev(x.args[1])) is not None
+                if isinstance(f.value, ast.Call) and src(f.value.func) == "re.compile" and len(x.args) == 1:
+                    return getattr(_re.compile(pat(f.value.args[0])), f.attr)(ev(x.args[0])) is not None
+                if isinstance(f.value, ast.Name) and len(x.args) == 1:
+                    mm = repo.mod("__main__")
+                    vals = [st.value for st in mm.tree.body if isinstance(st, ast.Assign) and len(st.targets) == 1 and src(st.targets[0]) == f.value.id]
+                    if len(vals) == 1 and isinstance(vals[0], ast.Call) and src(vals[0].func) == "re.compile":
+                        return getattr(_re.compile(pat(vals[0].args[0])), f.attr)(ev(x.args[0])) is not None
+        if isinstance(x, ast.Call) and isinstance(x.func, ast.Name) and x.func.id == "bool" and len(x.args) == 1:
+            return bool(ev(x.args[0]))
+        raise AnalysisError(f"reserved-function predicate: unsupported shape {src(x)[:60]}")
+
+    return ev(e)
+
+
 def r15_6_filters_structure(repo: Repo, rep: Report):
     rep.rule("R15.6", "target/exclude filters: structural clauses (excluded removed, targets respected, reserved test functions skipped)")
     m, rc = repo.fn("__main__.resolve_target_contracts")
@@ -260,6 +320,20 @@ def r15_6_filters_structure(repo: Repo, rep: Report):
     ]
     for x in frags:
         rep.check("R15.6", x in t, m, rsel, x, "target-selector resolution lost a clause")
+    # the reserved-function clause, evaluated on sample signatures (constant folding of a pure predicate over one string)
+    clauses = [i for i in body_walk(rsel) if isinstance(i, ast.If) and any(isinstance(x, ast.Continue) for x in i.body) and "fun_sig" in src(i.test) and "is_test_contract" in src(i.test)]
+    if len(clauses) != 1:
+        raise AnalysisError("resolve_target_selectors: reserved-function clause not found")
+    test = clauses[0].test
+    parts = test.values if isinstance(test, ast.BoolOp) and isinstance(test.op, ast.And) else [test]
+    pred = [p_ for p_ in parts if src(p_) != "is_test_contract"]
+    if len(pred) != len(parts) - 1 or not pred:
+        raise AnalysisError("resolve_target_selectors: reserved-function clause is not `is_test_contract and <predicate>`")
+    pred = pred[0] if len(pred) == 1 else ast.BoolOp(op=ast.And(), values=pred)
+    reserved = ["test_a()", "check_b(uint256)", "prove_c()", "invariant_d()", "setUp()", "afterInvariant()", "test_()"]
+    handlers = ["handler_check_in()", "mint_test_tokens()", "resetUp()", "do_invariant_break()", "approve_all()", "setUp(uint256)", "afterInvariant(bool)", "Test_x()", "deposit(uint256)", "xtest_y()"]
+    wrong = [x for x in reserved if _eval_sig_pred(repo, pred, x) is not True] + [x for x in handlers if _eval_sig_pred(repo, pred, x) is not False]
+    rep.check("R15.6", not wrong, m, clauses[0], f"reserved-function predicate `{src(pred)[:90]}` on {len(reserved)} reserved and {len(handlers)} ordinary signatures", f"misclassified: {wrong} - an ordinary handler of the test contract is dropped from the targets (or a test function becomes a target)")
     ys = [y for y in body_walk(rsel) if isinstance(y, ast.Yield)]
     rep.check("R15.6", len(ys) == 3 and all(src(y.value) == "(fun_sig, fun_selector)" for y in ys), m, rsel, f"{len(ys)} yield sites of (fun_sig, fun_selector)", "each branch must yield the selected functions")
     # get_* read the Foundry getters with hash-verified selectors
@@ -319,6 +393,15 @@ def r15_10_probe_marking(repo: Repo, rep: Report):
                     sites.append((mm, n))
     if not sites:
         raise AnalysisError("R15.10: no writer of probes_reported found")
+    # the set's elements identify a function of a contract: equality / hash of FunctionInfo covers every field
+    mcd, fi = repo.cls("calldata.FunctionInfo")
+    fields = [st for st in fi.body if isinstance(st, ast.AnnAssign) and isinstance(st.target, ast.Name)]
+    names = [st.target.id for st in fields]
+    weakened = [st.target.id for st in fields if isinstance(st.value, ast.Call) and call_name(st.value) == "field" and any(k.arg in ("compare", "hash") and isinstance(k.value, ast.Constant) and k.value.value is False for k in st.value.keywords)]
+    deco = [src(d) for d in fi.decorator_list]
+    custom = [st.name for st in fi.body if isinstance(st, ast.FunctionDef) and st.name in ("__eq__", "__hash__")]
+    ok = {"contract_name", "name", "sig", "selector"} <= set(names) and not weakened and not custom and any(d.startswith("dataclass(") and "frozen=True" in d and "eq=False" not in d for d in deco)
+    rep.check("R15.10", ok, mcd, fi, f"FunctionInfo{deco}: fields {names}, excluded from comparison: {weakened}, custom: {custom}", "two functions with the same signature in different contracts compare equal: once a violation in A.f is reported, B.f counts as already reported and its assertion-failing paths are dropped unchecked")
     need = {"model is not None", "result != unsat", "result != unknown", "result != 'err'"}
     for mm, n in sites:
         gs = guard_set(mm, n)
@@ -363,6 +446,11 @@ def r15_8_partial_frontier(repo: Repo, rep: Report):
 def r15_7_loop_logs(repo: Repo, rep: Report):
     rep.rule("R10.2", "loop logs of invariant target calls are reported (shared with C10)")
     r10_2_loop_logs_reported(repo, rep)
+    # a post-state is dropped from the frontier only when proved infeasible (shared with C02 R02.1)
+    from hsa.rules.verdicts import check_verdict_sites
+
+    rep.rule("R02.1", "invariant testing keeps a state unless the solver says unsat (shared with C02)")
+    check_verdict_sites(repo, rep, "R02.1", modules=("__main__",))
 
 
 RULES = [r15_10_probe_marking, r15_9_selector_decoding, r15_1_depth_indexing, r15_2_loop_completeness, r15_3_identity_retention, r15_4_probe_results_reach_a_verdict, r15_5_symbolic_transaction, r15_6_filters_structure, r15_7_loop_logs, r15_8_partial_frontier]
